@@ -409,3 +409,11 @@ def shrink(case, candidates, fails, budget=200):
             except Exception:
                 pass
     return case
+
+
+def gen_includes(b):
+    """include flags for compiling interrogate-generated code stand-alone"""
+    inc = ["-I", os.path.join(VERIF, "harness", "shims")]
+    for d in ("dtoolbase", "dtoolutil", "interrogatedb", "interrogate"):
+        inc += ["-I", os.path.join(b["src"], "src", d)]
+    return inc
